@@ -33,7 +33,8 @@ RULE = ("documents of 1-4 paragraphs of 1-5 fields; policy-valid names (mixed ca
         "assigned to Deb822() objects, dumped by the implementation, joined with >=1 blank lines (optional leading / "
         "trailing blank lines, LF or CRLF, with or without final line end), optionally wrapped paragraph by "
         "paragraph in clearsign armour (0-2 header lines, trailing blanks on armour lines) and interleaved with "
-        "comment lines (inside paragraphs, inside the armour, or as comment-only blocks), then read back through "
+        "comment lines (inside paragraphs, inside the armour, as comment-only blocks, or anywhere among the blank lines "
+        "between paragraphs and before the first one), then read back through "
         "each of 8 input forms (str, bytes, list of str with/without line ends, list of bytes with/without line "
         "ends, text file object [StringIO or a real file], binary file object [BytesIO or a real file]) x "
         "{default, whitespace-separates-paragraphs=False} x {Deb822, Dsc, Changes} x {iter_paragraphs, constructor}. "
@@ -57,9 +58,9 @@ ASSUMPTIONS = ["UTF-8 encode/decode is not modelled: bytes inputs are represente
                "field names are compared by ASCII lower-casing; generated names are ASCII or caseless non-ASCII",
                "fields=None; apt_pkg absent (internal parser); names of the _multivalued_fields tables (Files, "
                "Checksums-*) are not used with Dsc/Changes (they belong to C12)",
-               "for Dsc/Changes a comment-only block closed by an empty line ends iter_paragraphs (the raw pre-split of "
-               "_gpg_multivalued.__init__ sees comment lines): modelled and compared (agree), but such documents are "
-               "outside what holds judges for these two subclasses - the property is about Deb822 paragraphs"]
+               "Dsc/Changes given lines or a file split the RAW lines first (_gpg_multivalued.__init__) and, since fix D25 "
+               "(33b1652), repeat the split while the block consists of comment lines only: modelled (gpgmv_split), compared "
+               "(agree) and judged (holds) like Deb822; comment-only blocks are generated before paragraphs ('block')"]
 
 # ---------------------------------------------------------------------------
 # generation
@@ -138,6 +139,10 @@ def _gen_decor(rng):
         "block": rng.choice([[], [], [], ["#block"], ["# one", "#two"]]),
         "sep": rng.choice([1, 1, 1, 2, 3]),
         "sep_ws": rng.choice(["", "", "", " ", "\t", " \t "]),
+        # comment lines among the blank lines in front of the paragraph, and an empty line closing them
+        "sep_comments": [[rng.randint(0, 10 ** 6), rng.choice(COMMENTS)]
+                         for _ in range(rng.choice([0, 0, 0, 1, 2]))],
+        "sep_tail_empty": rng.random() < 0.5,
     }
 
 
@@ -151,6 +156,7 @@ def _gen_doc(rng):
         if not comments_on:
             d["comments"] = []
             d["block"] = []
+            d["sep_comments"] = []
         decor.append(d)
     single = rng.random() < 0.15
     if single:
@@ -302,7 +308,17 @@ def build_lines(case, dumps):
             seps = [d["sep_ws"]] * d["sep"]
             if not case["ws_sep"]:
                 seps[0] = ""
-            lines += seps
+        else:
+            seps, lines = lines, []          # the leading blank lines
+        if d.get("sep_comments"):
+            # comment lines anywhere among the blank lines (also before the first one: then they
+            # follow the previous paragraph's last line), e.g. '', '#c', ' ', '' under strictness False
+            for pos, text in d["sep_comments"]:
+                p = pos % (len(seps) + 1)
+                seps = seps[:p] + [text] + seps[p:]
+            if d.get("sep_tail_empty"):
+                seps = seps + [""]
+        lines += seps
         if d["block"]:
             lines += list(d["block"]) + [""]
         lines += body
@@ -477,7 +493,8 @@ def classify(case, obs):
         cls = ["Deb822", "Dsc", "Changes"][case["cls"]]
         if t == "doc":
             arm = "armor" if any(d["armor"] for d in case["decor"]) else "plain"
-            com = "comments" if any(d["comments"] or d["block"] for d in case["decor"]) else "nocomment"
+            com = ("gapcomments" if any(d.get("sep_comments") for d in case["decor"]) else
+                   "comments" if any(d["comments"] or d["block"] for d in case["decor"]) else "nocomment")
             return "doc/%s/%s/%s/%s/%s%s/%s" % (cls, FORM_NAMES[case["form"]], arm, com,
                                                "ws" if case["ws_sep"] else "nows",
                                                "/single" if case["single"] else "", out)
@@ -535,6 +552,8 @@ def shrink(case):
                 yield dict(case, decor=ds[:i] + [dict(d, comments=d["comments"][1:])] + ds[i + 1:])
             if d["block"]:
                 yield dict(case, decor=ds[:i] + [dict(d, block=[])] + ds[i + 1:])
+            if d.get("sep_comments"):
+                yield dict(case, decor=ds[:i] + [dict(d, sep_comments=d["sep_comments"][1:])] + ds[i + 1:])
             if d["sep"] > 1 or d["sep_ws"]:
                 yield dict(case, decor=ds[:i] + [dict(d, sep=1, sep_ws="")] + ds[i + 1:])
         if case["lead"] or case["trail"]:
